@@ -10,6 +10,7 @@ whole-sample quantities exactly (integer arithmetic on the dyadic inputs), indep
 the model.
 """
 import json
+import numpy as np
 import math
 import random
 import re
@@ -358,7 +359,7 @@ def feed_rs(rs, xs, chunks, between=None):
             for x in part:
                 rs.update(x)
         elif mode == "it":
-            rs.update_from_it(part)
+            rs.update_from_it(part if (pos % 2) else np.array(part))       # a chunk may be a numpy array
         else:
             rs.update_from_it(x for x in part)
     assert pos == len(xs)
